@@ -470,3 +470,37 @@ REG.contract('Buffer.project_buffer_capacity', world=BW, params={'obs': 'Observa
              ensures=lambda c: [('exact', c.result.t == ((hot(c.o.self).total_capacity.t - hot(c.o.self).current_capacity.t
                                                           + c.o.obs.total_data_size.t) / hot(c.o.self).total_capacity.t < z3.RealVal('0.6')))],
              result='bool', props=['C07'])
+
+
+# ---- rely / guarantee: what a suspended ingest stream knows (C07) --------------------------------------------------------------
+from pyvc.spec import Carried   # noqa: E402
+from pyvc.state import ObjV as _ObjV2   # noqa: E402
+
+
+def _has_buffer(names):
+    def rec(v, seen):
+        if isinstance(v, _ObjV2):
+            if id(v) in seen:
+                return False
+            seen.add(id(v))
+            return v.cls == 'Buffer' or any(rec(x, seen) for x in v.fields.values())
+        return False
+    return any(rec(v, set()) for v in names.values())
+
+
+def _deposited_so_far(sv, p, names):
+    if not _has_buffer(names):
+        return None
+    o = p['fo'].t
+    H = lambda f: z3.Select(sv.heap('Observation', f), o)
+    return z3.And(p['ftl'].t >= 0, H('total_data_size') == H('ingest_data_rate') * (H('duration') - 1 - p['ftl'].t))
+
+
+def _other_stream(sv, p, names, qual, frm):
+    if qual == 'Buffer.ingest_data_stream' and 'observation' in names:
+        return names['observation'].t != p['fo'].t        # one ingest stream per observation (RunStatus leaves WAITING once)
+    return None
+
+
+REG.carried.append(Carried('C07-a-suspended-ingest-stream-keeps-its-deposit-count', 'Buffer.ingest_data_stream',
+                           {'fo': 'Observation', 'ftl': 'num'}, _deposited_so_far, _other_stream, props=['C07']))
